@@ -23,6 +23,25 @@ def check(case):
             return Fail(f'crc32c/mismatch-{order}', f'crc32c({data.hex()[:80]},{order})={got!r} expected {r32:08x}')
     if crc32c(data) != r32.to_bytes(4, 'little'):
         return Fail('crc32c/default-byteorder', 'default byte order is not little-endian')
+    # the same input again with the byte order given by keyword, in both call orders (a result must not depend on earlier calls)
+    for order in ('big', 'little', 'big'):
+        got = crc32c(data, byteorder=order)
+        if got != r32.to_bytes(4, order):
+            return Fail(f'crc32c/depends-on-earlier-calls/keyword-{order}', f'crc32c({data.hex()[:40]}, byteorder={order!r})={got!r} '
+                        f'expected {r32.to_bytes(4, order).hex()}')
+    if crc32c(data) != r32.to_bytes(4, 'little') or crc16(data) != r16.to_bytes(2, 'big'):
+        return Fail('crc/depends-on-earlier-calls/repeat', data.hex()[:80])
+    # a mutable byte string that is changed in place between two calls
+    if data:
+        ba = bytearray(data)
+        if crc16(ba) != r16.to_bytes(2, 'big') or crc32c(ba) != r32.to_bytes(4, 'little'):
+            return Fail('crc/bytearray-input-differs', data.hex()[:80])
+        ba[len(ba) // 2] ^= 0x01
+        m16, m32 = refcrc.crc16_xmodem(bytes(ba)), refcrc.crc32c(bytes(ba))
+        if crc16(ba) != m16.to_bytes(2, 'big'):
+            return Fail('crc16/stale-after-in-place-change', f'bytearray changed in place between two calls: {bytes(ba).hex()[:80]}')
+        if crc32c(ba) != m32.to_bytes(4, 'little'):
+            return Fail('crc32c/stale-after-in-place-change', f'bytearray changed in place between two calls: {bytes(ba).hex()[:80]}')
     return None
 
 
